@@ -4,6 +4,7 @@ import (
 	"fmt"
 	"math"
 	"math/big"
+	"reflect"
 	"sort"
 	"strings"
 	"time"
@@ -92,6 +93,10 @@ func qGval(v any) string {
 	case key.Key:
 		return "(VMap " + qMap(x) + ")"
 	default:
+		// any other named byte-slice type (ed25519.PublicKey ...): the accessors read it through reflection like a ByteStr
+		if rv := reflect.ValueOf(v); rv.Kind() == reflect.Slice && rv.Type().Elem().Kind() == reflect.Uint8 {
+			return "(VBytes " + qHex(rv.Bytes()) + ")"
+		}
 		return fmt.Sprintf("(VOther \"%T\")", v)
 	}
 }
